@@ -36,13 +36,15 @@ def run(prop, cfg, tier, seed):
     twin_pairs = []     # (orig_line, twin_line, relation)
     genstats = {}
     seeds = [seed] if tier == "quick" else [seed, seed * 31 + 7, seed * 131 + 1009]
+    stream_no = 0
     for (profile, nq, nt) in cfg["streams"]:
         n = nq if tier == "quick" else max(nq, nt // len(seeds))
         for si, sd in enumerate(seeds):
+            stream_no += 1
             tag = "%s_%d" % (profile, si)
             cf = os.path.join(wd, tag + ".gen")
             sf = os.path.join(wd, tag + ".stats.json")
-            core.gen_cases(profile, sd, n, cf, variants=cfg.get("variants"), stats=sf)
+            core.gen_cases(profile, sd, n, cf, variants=cfg.get("variants"), stats=sf, id0=stream_no * 400_000 + 1)
             header, lines = core.read_cases(cf)
             try:
                 st = json.load(open(sf))
